@@ -40,6 +40,7 @@ RULE += (" Also: a handle closed while the owner's own read of the underlying it
 RULE += (' Also: the underlying iterator fails once through a handle, which is then closed and must be silent.')
 RULE += (' Also: an exception thrown into a CLOSED handle reaches nothing (class sources with athrow but no asend included).')
 RULE += (' Also: streams whose items are awaitable jobs (never awaited by a handle); aggregations that reject an item (dict over non-pairs) stop right there.')
+RULE += (' Also: a value sent through a handle over a generator that was never advanced is refused and takes nothing.')
 ASSUMPTIONS = ["laziness of the tools themselves is C05's concern; here the stdlib twin predicts how many items a tool takes",
                "athrow on a LIVE handle is not part of the property's operation list and is not generated; athrow on a closed handle is"]
 EXHAUSTIVE_SUBSPACES = 'all histories of length <= 3 (thorough: 4) over a 13-operation alphabet'
@@ -285,7 +286,7 @@ def gen_history(rng, maxops=12):
         elif r < 0.46:
             ops.append(["aclose_iter", h])
         elif r < 0.50:
-            ops.append(["asend", h])
+            ops.append(["asend", h] + (["value"] if rng.random() < 0.4 else []))
         elif r < 0.52:
             ops.append(["athrow_closed", h])
         elif r < 0.62:
@@ -313,7 +314,7 @@ def cases(tier, seed, shard, nshards):
     alphabet = [["next_b", 0], ["next_u"], ["aclose_b", 0], ["aclose_iter", 0], ["asend", 0], ["reborrow", 0], ["next_b", 1],
                 ["tool", "islice2", 0, 1, "close"], ["tool", "takewhile", 0, 1, "abandon"], ["tool", "zip", 0, 0, "close"],
                 ["tool", "list", 0, 0, "close"], ["tool", "chain", 0, 0, "close"], ["tool", "tee0", 1, 1, "close"],
-                ["scope", 0, 1], ["asend", 1], ["next_b", 2], ["next_f", 0], ["athrow_closed", 0]]
+                ["scope", 0, 1], ["asend", 1], ["next_b", 2], ["next_f", 0], ["athrow_closed", 0], ["asend", 0, "value"]]
     maxlen = 3 if tier == "quick" else 4
     for n in range(1, maxlen + 1):
         for hist in itertools.product(alphabet, repeat=n):
@@ -468,7 +469,19 @@ def run_history(case, stats, scoped=None):
                     continue
                 pos_before = st.pos
                 try:
-                    if kind == "asend":
+                    if kind == "asend" and len(op) > 2 and op[2] == "value":
+                        # a VALUE sent through the handle: a generator that was never advanced refuses it (TypeError)
+                        # and stays where it is - nothing is taken from it on the sender's behalf
+                        try:
+                            got = _uid(await handles[h].asend("a value sent through the handle"))
+                        except TypeError:
+                            counters["values_sent_to_a_fresh_generator_refused"] += 1
+                            if st.pos != pos_before:
+                                fail("borrow/underlying-advanced-differently",
+                                     f"op {n} {op}: the refused send of a value advanced the underlying from {pos_before} to {st.pos}")
+                                return
+                            continue
+                    elif kind == "asend":
                         got = _uid(await handles[h].asend(None))
                     elif kind == "next_f":
                         got = _uid(await fetchers[h]())
